@@ -69,6 +69,16 @@ type prover struct {
 	constBounds bool                    // also check constant indices/bounds on input buffers (class K)
 	classV      bool                    // computed (non-length-field) bounds on received buffers: off — needs library axioms (bytes.Index) and type invariants (Hash.Length) the prover does not have
 	vn          map[ssa.Value]ssa.Value // value numbering: load of x.f -> first load of the same x.f (field never stored in fn)
+	edgeBlks    map[[2]*ssa.BasicBlock]*ssa.BasicBlock // (pred, succ) -> synthetic block carrying the facts of that conditional edge
+	realBlk     map[*ssa.BasicBlock]*ssa.BasicBlock    // synthetic edge block -> the predecessor it leaves
+}
+
+// real: the block of the function a (possibly synthetic) fact block stands for, for dominance questions.
+func (p *prover) real(b *ssa.BasicBlock) *ssa.BasicBlock {
+	if r, ok := p.realBlk[b]; ok {
+		return r
+	}
+	return b
 }
 
 func newProver(fn *ssa.Function) *prover { return newProverP(nil, fn, 0) }
@@ -380,6 +390,82 @@ func (p *Program) stableNullary(fn *ssa.Function) bool {
 	return ok
 }
 
+// needleMinLen: a lower bound of the length of the needle of strings./bytes. Index / LastIndex (0 = unknown).
+func (p *prover) needleMinLen(c *ssa.Call) int64 {
+	co := calleeOfCommon(c.Common())
+	if co == nil || len(c.Common().Args) < 2 {
+		return 0
+	}
+	if co.Name() != "Index" && co.Name() != "LastIndex" {
+		return 1
+	}
+	n := c.Common().Args[1]
+	if s, ok := constStringOf(n); ok {
+		return int64(len(s))
+	}
+	// []byte{...} literal, here or as the initial value of a never-reassigned package variable
+	lit := func(v ssa.Value) int64 {
+		if sl, ok := v.(*ssa.Slice); ok && sl.Low == nil && sl.High == nil {
+			if al, ok := sl.X.(*ssa.Alloc); ok {
+				if k, ok := arrayLen(al.Type()); ok {
+					return k
+				}
+			}
+		}
+		return 0
+	}
+	if k := lit(n); k > 0 {
+		return k
+	}
+	if u, ok := n.(*ssa.UnOp); ok {
+		if g, ok := u.X.(*ssa.Global); ok && p.prog != nil && p.prog.stableGlobal(g) {
+			if init := g.Pkg.Func("init"); init != nil {
+				for _, b := range init.Blocks {
+					for _, in := range b.Instrs {
+						if st, ok := in.(*ssa.Store); ok && st.Addr == ssa.Value(g) {
+							if k := lit(st.Val); k > 0 {
+								return k
+							}
+						}
+					}
+				}
+			}
+		}
+	}
+	return 0
+}
+
+// libIndexCall: v is the result of strings./bytes. Index, IndexByte, IndexRune, IndexAny, IndexFunc, LastIndex*:
+// returns the haystack and whether a found position is strictly below its length.
+func libIndexCall(v ssa.Value) (hay ssa.Value, strict bool, ok bool) {
+	c, isC := v.(*ssa.Call)
+	if !isC {
+		return nil, false, false
+	}
+	co := calleeOfCommon(c.Common())
+	if co == nil || co.Pkg() == nil || (co.Pkg().Path() != "strings" && co.Pkg().Path() != "bytes") {
+		return nil, false, false
+	}
+	n := co.Name()
+	if !(strings.HasPrefix(n, "Index") || strings.HasPrefix(n, "LastIndex")) || len(c.Common().Args) < 2 {
+		return nil, false, false
+	}
+	strict = true
+	if n == "Index" || n == "LastIndex" {
+		// an empty needle is found at len(haystack) by LastIndex and at 0 by Index
+		strict = false
+		if s, isS := constStringOf(c.Common().Args[1]); isS && len(s) > 0 {
+			strict = true
+		}
+	}
+	return c.Common().Args[0], strict, true
+}
+
+// strictIndex: libIndexCall's strictness, also recognising a one-element needle held in a literal or a stable package variable.
+func (p *prover) strictIndex(c *ssa.Call, strict bool) bool {
+	return strict || p.needleMinLen(c) >= 1
+}
+
 func intConst(v ssa.Value) (int64, bool) {
 	c, ok := v.(*ssa.Const)
 	if !ok || c.Value == nil || c.Value.Kind() != constant.Int {
@@ -609,10 +695,43 @@ func (p *prover) collectFacts() {
 // the i-th predecessor, provided the phi's block dominates the point of use (otherwise keep the current block).
 func (p *prover) edgeBlock(ph *ssa.Phi, i int, cur *ssa.BasicBlock) *ssa.BasicBlock {
 	pb := ph.Block()
-	if i < len(pb.Preds) && (pb == cur || pb.Dominates(cur)) {
-		return pb.Preds[i]
+	if rc := p.real(cur); i < len(pb.Preds) && (pb == rc || pb.Dominates(rc)) {
+		pred := pb.Preds[i]
+		// the edge itself may be one arm of a conditional (an `if` without else: the untaken arm goes straight to
+		// the join): on it the condition holds with the arm's polarity, besides everything that dominates pred.
+		if n := len(pred.Instrs); n > 0 {
+			if iff, ok := pred.Instrs[n-1].(*ssa.If); ok && len(pred.Succs) == 2 && pred.Succs[0] != pred.Succs[1] {
+				key := [2]*ssa.BasicBlock{pred, pb}
+				if eb, ok := p.edgeBlks[key]; ok {
+					return eb
+				}
+				eb := &ssa.BasicBlock{Comment: "edge"}
+				fs := append([]fact{}, p.facts[pred]...)
+				for _, f := range p.condFacts(iff.Cond, pred.Succs[0] == pb) {
+					fs = append(fs, fact{p.canonT(f.x), p.canonT(f.y), f.k})
+				}
+				if p.edgeBlks == nil {
+					p.edgeBlks = map[[2]*ssa.BasicBlock]*ssa.BasicBlock{}
+					p.realBlk = map[*ssa.BasicBlock]*ssa.BasicBlock{}
+				}
+				p.facts[eb] = fs
+				p.edgeBlks[key] = eb
+				p.realBlk[eb] = pred
+				return eb
+			}
+		}
+		return pred
 	}
 	return cur
+}
+
+func (p *prover) canonT(t term) term {
+	if t.v != nil {
+		if r, ok := p.vn[t.v]; ok {
+			t.v = r
+		}
+	}
+	return t
 }
 
 func (p *prover) lenTerm(v ssa.Value) term {
@@ -669,6 +788,17 @@ func (p *prover) condFacts(cond ssa.Value, truth bool) []fact {
 		case token.EQL:
 			return []fact{{x, y, yo - xo}, {y, x, xo - yo}}
 		case token.NEQ:
+			// r != -1 for a position returned by an Index function (r >= -1): r >= 0
+			if y.v == nil && yo-xo == -1 && x.v != nil && !x.isLen {
+				if _, _, ok := libIndexCall(x.v); ok {
+					return []fact{{zeroT, x, 0}}
+				}
+			}
+			if x.v == nil && xo-yo == -1 && y.v != nil && !y.isLen {
+				if _, _, ok := libIndexCall(y.v); ok {
+					return []fact{{zeroT, y, 0}}
+				}
+			}
 			// x != k where x >= k is known by type (length or unsigned, k == 0 after normalisation): x >= k+1
 			_, xu, _ := basicInfo(c.X.Type())
 			if y.v == nil && yo-xo == 0 && x.v != nil && (x.isLen || xu) {
@@ -786,6 +916,31 @@ func (p *prover) prove1(a, b term, c int64, blk *ssa.BasicBlock, depth int) bool
 			return true
 		}
 	}
+	// positions returned by strings/bytes Index functions: -1 <= r, and r < len(haystack) (r <= len for a possibly empty needle)
+	if b.v != nil && !b.isLen {
+		if _, _, ok := libIndexCall(b.v); ok {
+			if p.prove(a, zeroT, c-1, blk, depth+1) {
+				return true
+			}
+		}
+	}
+	if a.v != nil && !a.isLen {
+		if hay, strict, ok := libIndexCall(a.v); ok {
+			k := c
+			if call0, isCall0 := a.v.(*ssa.Call); isCall0 && p.strictIndex(call0, strict) {
+				k = c + 1
+			}
+			// a found position leaves room for the whole needle: r + len(needle) <= len(haystack) once r >= 0 is known
+			if call, isCall := a.v.(*ssa.Call); isCall && depth < 6 {
+				if L := p.needleMinLen(call); L > 1 && p.prove(zeroT, a, 0, blk, depth+1) {
+					k = c + L
+				}
+			}
+			if p.prove(term{canonLenOperand(hay), true}, b, k, blk, depth+1) {
+				return true
+			}
+		}
+	}
 	if a.v != nil && !a.isLen {
 		if lo, hi, ok := p.rangeOfCallResult(a.v); ok {
 			_ = lo
@@ -808,9 +963,21 @@ func (p *prover) prove1(a, b term, c int64, blk *ssa.BasicBlock, depth int) bool
 				u, w := pair[0], pair[1]
 				for _, sl := range p.slicesOf(b.v) {
 					_ = sl
-					if sl.High == nil && sl.Low != nil && sameValue(sl.Low, u) && sl.Block().Dominates(blk) {
+					if sl.High == nil && sl.Low != nil && (sl.Block() == p.real(blk) || sl.Block().Dominates(p.real(blk))) {
+						// u = Low + d for a constant d: u + w <= len(x) + c  <=  w <= len(x[Low:]) + c - d
+						d, same := int64(0), sameValue(sl.Low, u)
+						if !same {
+							tu, ou := p.norm(u)
+							tl, ol := p.norm(sl.Low)
+							if tu == tl && tu.v != nil {
+								d, same = ou-ol, true
+							}
+						}
+						if !same {
+							continue
+						}
 						tw, ow := p.norm(w)
-						if p.prove(tw, term{sl, true}, c-ow, blk, depth+1) {
+						if p.prove(tw, term{sl, true}, c-ow-d, blk, depth+1) {
 							return true
 						}
 					}
@@ -1558,6 +1725,10 @@ func (p *prover) risky(v ssa.Value, classP map[ssa.Value]bool) string {
 					why = "T: decoded from input by " + co.Name()
 					return
 				}
+				if (strings.HasPrefix(full, "strings.") || strings.HasPrefix(full, "bytes.")) && (strings.HasPrefix(co.Name(), "Index") || strings.HasPrefix(co.Name(), "LastIndex")) {
+					why = "N: position from " + co.Name() + ", -1 when nothing is found"
+					return
+				}
 				if strings.HasPrefix(full, "strconv.") || full == "encoding/binary.Read" {
 					why = "T: parsed from input by " + co.Name()
 					return
@@ -1617,11 +1788,9 @@ func (p *prover) risky(v ssa.Value, classP map[ssa.Value]bool) string {
 			}
 			walk(x.X, depth+1)
 		case *ssa.Phi:
-			// loop-carried cursors and accumulators are not followed: their invariants are inductive and
-			// outside the reach of this prover (stated limitation); a phi that merely joins branches is.
-			if phiInCycle(x) {
-				return
-			}
+			// loop-carried cursors are followed too: the prover closes their invariants by induction over the phi
+			// (a goal met again through a phi with a bound that did not tighten) when the loop re-checks the cursor
+			// against the buffer on every round; a cursor bounded only by a relational pre-check stays unproven.
 			for _, e := range x.Edges {
 				walk(e, depth+1)
 			}
